@@ -20,8 +20,12 @@ YearDet(r, n)   == r.a <= r.b \/ r.step = 1
 
 -----------------------------------------------------------------------------
 (* month ranges  [year] m1-m2                                                            *)
-MonthMatch(r, n) == (r.year = -1 \/ r.year = YearOf(n)) /\ WrapIn(r.a, r.b, MonthOf(n))
-MonthDet(r, n)   == r.year = -1 \/ r.a <= r.b
+\* with a year, a wrapping range (2021 Nov-Feb) continues on the following year
+MonthMatch(r, n) ==
+  IF r.year = -1 THEN WrapIn(r.a, r.b, MonthOf(n))
+  ELSE IF r.a <= r.b THEN r.year = YearOf(n) /\ r.a <= MonthOf(n) /\ MonthOf(n) <= r.b
+  ELSE (r.year = YearOf(n) /\ MonthOf(n) >= r.a) \/ (r.year + 1 = YearOf(n) /\ MonthOf(n) <= r.b)
+MonthDet(r, n)   == TRUE
 
 -----------------------------------------------------------------------------
 (* dates and date ranges                                                                 *)
